@@ -51,6 +51,9 @@ def run(ctx):
     macro_versions_part(ctx)
     for f in ctx.known():
         ctx.witness(f)
+    # what one template leaves behind (rejected templates, templates with options of their own) does not reach another
+    from .. import isolation
+    ctx.replays += isolation.run(ctx, "macros")
     ctx.exhaustive = True
     ctx.rule = ("macro libraries with 1-2 macros and 0-3 slots (repeated names), callers filling every subset of slots "
                 "plus an unknown name, same-template / other-template / whole-template macros, use inside repeat, macro "
